@@ -629,6 +629,12 @@ def _split_simple_statements(stmts):
                                          orelse=[ast.copy_location(ast.Return(value=ie.orelse), s)]), s)
             out.extend(_split_simple_statements([s]))
             continue
+        if isinstance(s, ast.Assign) and len(s.targets) >= 2 and all(isinstance(t, ast.Name) for t in s.targets) \
+                and isinstance(s.value, (ast.Constant, ast.Name)):
+            # `a = b = c = None`  ->  three assignments of the same constant / name
+            for t in s.targets:
+                out.append(ast.copy_location(ast.Assign(targets=[t], value=copy.deepcopy(s.value)), s))
+            continue
         if isinstance(s, ast.Assign) and len(s.targets) == 2 and isinstance(s.targets[0], ast.Name) and isinstance(s.targets[1], ast.Attribute) \
                 and isinstance(s.targets[1].value, ast.Name):
             # `a = self.x = v`  ->  `self.x = v; a = self.x`   (a plain instance attribute reads back what was stored)
